@@ -153,6 +153,13 @@ func VerifH_C12_Client() {
 	if huge {
 		return
 	}
+	if conn.msize <= 153 {
+		// an announced msize that cannot hold one byte of payload may be refused
+		verifReach("tiny-msize")
+		if err != nil {
+			return
+		}
+	}
 	verifReach("client-accepts")
 	verifAssert(err == nil && c != nil, "NewClient accepts a 9P2000.L reply")
 	if err != nil {
